@@ -1,5 +1,5 @@
 """Configuration of the C18 check (see DESIGN.md section 6)."""
-PROP = {'counts': {'quick': 400, 'thorough': 30000},
+PROP = {'counts': {'quick': 400, 'thorough': 16000},
  'rule': 'sequential cases: insert/delete sequences with arbitrary (non-monotone, repeated, extreme) '
          'sequence numbers on pkg/memtable.MemTable, with Get, full iteration, Seek, SetImmutable, compared '
          'with the extracted Memtable model and with an independent sort-based oracle; every 10th case is '
